@@ -40,6 +40,10 @@ type Program struct {
 	initFacts    map[string][]*T // package path -> entry assumptions from init()
 	initNotes    map[string][]string
 	initDone     map[string]bool
+	anchorKey    map[*ssa.Function]string // closures bound to a contract by a source anchor
+	anchored     map[string]bool          // pkgPath::key of anchored contracts
+	srcCache     map[string][]byte
+	anchorNotes  []string
 }
 
 const modulePath = "github.com/google/inverting-proxy"
@@ -97,6 +101,7 @@ func LoadProgram(repo string, patterns []string) (*Program, error) {
 			}
 		}
 	}
+	p.anchorNotes = p.bindAnchors()
 	return p, nil
 }
 
@@ -218,6 +223,20 @@ func (p *Program) pkgPathOf(fn *ssa.Function) string {
 
 // localKey is the function's name within its package as used in contract files: (*T).M, f, f$1.
 func (p *Program) localKey(fn *ssa.Function) string {
+	if k, ok := p.anchorKey[fn]; ok {
+		return k
+	}
+	if par := fn.Parent(); par != nil && len(p.anchorKey) > 0 {
+		for i, a := range par.AnonFuncs {
+			if a == fn {
+				k := p.localKey(par) + "$" + itoa(i+1)
+				if p.anchored[p.pkgPathOf(fn)+"::"+k] {
+					k += "'" // this ordinal name is owned by an anchored sibling
+				}
+				return k
+			}
+		}
+	}
 	s := shortenKey(fn.String())
 	f := fn
 	for f.Parent() != nil {
@@ -286,6 +305,7 @@ func (p *Program) loopsOf(fn *ssa.Function) *loopInfo {
 		return li
 	}
 	li := analyzeLoops(fn)
+	p.anchorLoops(fn, li)
 	p.loops[fn] = li
 	return li
 }
